@@ -312,9 +312,9 @@ Proof.
   - set (s0 := upd_cur (upd_chunks s cs) (Cur j)) in *.
     unfold grow_arena in H.
     destruct (new_chunk_size c _ size align) as [n|].
-    2:{ injection H as <- _. cbn [chunks cur upd_cur upd_chunks s0]. split; [exact W4|]. exists j. split; [reflexivity|lia]. }
+    2:{ injection H as <- _. cbn [chunks cur upd_cur upd_chunks s0]. split; [exact W4|]. exists i. split; [reflexivity|lia]. }
     destruct r as [[addr g]|].
-    2:{ injection H as <- _. cbn [chunks cur upd_cur upd_chunks log_event s0]. split; [exact W4|]. exists j. split; [reflexivity|lia]. }
+    2:{ injection H as <- _. cbn [chunks cur upd_cur upd_chunks log_event s0]. split; [exact W4|]. exists i. split; [reflexivity|lia]. }
     cbn [cur chunks upd_cur upd_chunks log_event s0] in H.
     rewrite nth_error_app_last in H.
     destruct (f (make_chunk c n addr g)) as [[res1 ch1]|]; injection H as <- _;
@@ -325,4 +325,152 @@ Proof.
     + split.
       * intros k Hk. rewrite nth_error_app1 by lia. apply W4. exact Hk.
       * exists (length cs). split; [reflexivity|lia].
+Qed.
+
+(* the chunk appended for a layout has room for that layout: the `unreachable_unchecked` at the
+   end of RawBump::in_another_chunk is never reached, for allocation and for preparation *)
+Lemma make_chunk_fits c prev size align m n addr g :
+  cfg_ok c -> valid_layout size align -> valid_min_align m ->
+  new_chunk_size c prev size align = Some n -> n <= g -> (ha c | addr) ->
+  chunk_alloc c m (make_chunk c n addr g) size align <> None /\
+  ((align | size) -> chunk_prepare c (make_chunk c n addr g) size align <> None).
+Proof.
+  intros [Hh Hmc] Hl Hm En Hg Hb. unfold new_chunk_size in En.
+  destruct (W <=? spec_hint (up c) (hs c) (ha c) size align); [discriminate|].
+  destruct (W <=? match prev with Some ps => 2 * ps | None => 0 end); [discriminate|].
+  match type of En with context [spec_size0 _ _ ?h] => remember h as hint eqn:Ehint end.
+  destruct (W <=? spec_size0 (hs c) (ha c) hint); [discriminate|].
+  destruct (IMAX - (ha c - 1) <? spec_size_from_hint (up c) (hs c) (ha c) hint); [discriminate|].
+  injection En as <-.
+  assert (Hhint : spec_hint (up c) (hs c) (ha c) size align <= hint) by (subst hint; lia).
+  pose proof (fresh_chunk_fits (up c) (hs c) (ha c) Hh size align m Hl Hm hint g addr Hhint Hg Hb) as [Hu Hd].
+  cbv zeta in Hu, Hd.
+  unfold chunk_alloc, chunk_prepare, make_chunk, fresh_pos, content_start, content_end.
+  cbn [cpos cbase csize set_pos].
+  destruct (up c) eqn:Eup.
+  - specialize (Hu eq_refl). split.
+    + destruct (spec_up _ _ m size align) as [[p np]|]; [discriminate|exfalso; apply Hu; reflexivity].
+    + intros _. eapply spec_prep_up_fits. exact Hu.
+  - specialize (Hd eq_refl). split.
+    + destruct (spec_down _ _ m size align) as [p|]; [discriminate|exfalso; apply Hd; reflexivity].
+    + intros Hmul. apply (spec_prep_down_fits _ _ m); assumption.
+Qed.
+
+(* a prepare (the growth of a MutBumpVec / MutBumpVecRev / MutBumpString) that fails leaves the
+   chunk the outstanding prepared slice lives in current, so that a later commit of that slice
+   sets the position of the right chunk *)
+Theorem failed_prepare_keeps_current c s i size align r s1 e :
+  cfg_ok c -> ginv c s -> cur s = Cur i ->
+  valid_layout size align -> (align | size) -> resp_ok c s size align r ->
+  raw_prepare_range c s size align r = (s1, inr e) ->
+  cur s1 = Cur i /\ (forall k, (k <= i)%nat -> nth_error (chunks s1) k = nth_error (chunks s) k).
+Proof.
+  intros Hc (Hok & Hd & Hm & Hcur) Ec Hl Hmul Hr H. rewrite Ec in Hcur. destruct Hcur as (chi & Eni & Hmpi).
+  pose proof (nth_error_some_lt _ _ _ Eni) as Hilt.
+  unfold raw_prepare_range in H. rewrite Ec, Eni in H.
+  set (f := fun ch : chunk => match chunk_prepare c ch size align with Some rng => Some (rng, ch) | None => None end) in *.
+  cbv beta in H. destruct (chunk_prepare c chi size align) as [rng|] eqn:Ef; [discriminate|].
+  unfold in_another_chunk in H.
+  assert (Hf : forall ch p ch1, chunk_ok c ch -> (malign s | cpos ch) -> f ch = Some (p, ch1) ->
+            chunk_ok c ch1 /\ same_geom ch ch1 /\ (malign s | cpos ch1) /\ True).
+  { intros ch p ch1 Hcok Hcm Hfe. unfold f in Hfe. destruct (chunk_prepare c ch size align); [|discriminate].
+    injection Hfe as _ <-. split; [exact Hcok|]. split; [apply same_geom_refl|]. split; [exact Hcm|exact I]. }
+  destruct (walk_next c f (chunks s) i (length (chunks s))) as [[cs j] wres] eqn:Ew.
+  destruct (walk_next_spec c Hc (malign s) Hm (Z * Z) f (fun _ _ => True) Hf _ _ _ _ _ _ Hok Hilt Ew)
+    as (W1 & W2 & W3 & W4 & _).
+  destruct wres as [p|]; [discriminate|].
+  set (s0 := upd_cur (upd_chunks s cs) (Cur j)) in *.
+  assert (Hr0 : resp_ok c s0 size align r) by (eapply resp_ok_same_geom; [exact W2|exact Hr]).
+  unfold grow_arena in H. fold (prev_size s0) in H.
+  destruct (new_chunk_size c (prev_size s0) size align) as [n|] eqn:En.
+  2:{ injection H as <- _. cbn [chunks cur upd_cur upd_chunks s0]. split; [reflexivity|exact W4]. }
+  destruct r as [[addr g]|].
+  2:{ injection H as <- _. cbn [chunks cur upd_cur upd_chunks log_event s0]. split; [reflexivity|exact W4]. }
+  exfalso. cbn [cur chunks upd_cur upd_chunks log_event s0] in H.
+  rewrite nth_error_app_last in H.
+  destruct Hr0 as (_ & Hb & _ & _ & Hng & _).
+  destruct (make_chunk_fits c (prev_size s0) size align (malign s) n addr g Hc Hl Hm En (Hng n En) Hb) as [_ Hfit].
+  unfold f in H. destruct (chunk_prepare c (make_chunk c n addr g) size align) as [rng|]; [discriminate|].
+  apply (Hfit Hmul). reflexivity.
+Qed.
+
+(* the same for every use of the slow path: when it fails, the chunk that was current stays
+   current and no chunk up to it is touched *)
+Lemma in_another_chunk_failed {R} c s (f : chunk -> option (R * chunk)) size align r s1 e :
+  cfg_ok c -> ginv c s -> resp_ok c s size align r ->
+  (forall ch p ch1, chunk_ok c ch -> (malign s | cpos ch) -> f ch = Some (p, ch1) ->
+     chunk_ok c ch1 /\ same_geom ch ch1 /\ (malign s | cpos ch1) /\ True) ->
+  (forall prev n addr g, new_chunk_size c prev size align = Some n -> n <= g -> (ha c | addr) ->
+     f (make_chunk c n addr g) <> None) ->
+  in_another_chunk c s (cur s) size align f r = (s1, inr e) ->
+  cur s1 = cur s /\
+  match cur s with
+  | Cur i => forall k, (k <= i)%nat -> nth_error (chunks s1) k = nth_error (chunks s) k
+  | _ => chunks s1 = chunks s
+  end.
+Proof.
+  intros Hc (Hok & Hd & Hm & Hcur) Hr Hf Hfresh H.
+  unfold in_another_chunk in H. destruct (cur s) as [i| |] eqn:Ec.
+  - destruct Hcur as (chi & Eni & Hmpi). pose proof (nth_error_some_lt _ _ _ Eni) as Hilt.
+    destruct (walk_next c f (chunks s) i (length (chunks s))) as [[cs j] wres] eqn:Ew.
+    destruct (walk_next_spec c Hc (malign s) Hm R f (fun _ _ => True) Hf _ _ _ _ _ _ Hok Hilt Ew)
+      as (W1 & W2 & W3 & W4 & _).
+    destruct wres as [p|]; [discriminate|].
+    set (s0 := upd_cur (upd_chunks s cs) (Cur j)) in *.
+    assert (Hr0 : resp_ok c s0 size align r) by (eapply resp_ok_same_geom; [exact W2|exact Hr]).
+    unfold grow_arena in H. fold (prev_size s0) in H.
+    destruct (new_chunk_size c (prev_size s0) size align) as [n|] eqn:En.
+    2:{ injection H as <- _. cbn [chunks cur upd_cur upd_chunks s0]. split; [reflexivity|exact W4]. }
+    destruct r as [[addr g]|].
+    2:{ injection H as <- _. cbn [chunks cur upd_cur upd_chunks log_event s0]. split; [reflexivity|exact W4]. }
+    exfalso. cbn [cur chunks upd_cur upd_chunks log_event s0] in H.
+    rewrite nth_error_app_last in H.
+    destruct Hr0 as (_ & Hb & _ & _ & Hng & _).
+    pose proof (Hfresh (prev_size s0) n addr g En (Hng n En) Hb) as Hfit.
+    destruct (f (make_chunk c n addr g)) as [[res1 ch1]|]; [discriminate|]. apply Hfit. reflexivity.
+  - unfold grow_arena in H. fold (prev_size s) in H.
+    destruct (new_chunk_size c (prev_size s) size align) as [n|] eqn:En.
+    2:{ injection H as <- _. split; [exact Ec|reflexivity]. }
+    destruct r as [[addr g]|].
+    2:{ injection H as <- _. cbn [chunks cur log_event]. split; [exact Ec|reflexivity]. }
+    exfalso. cbn [cur chunks upd_cur upd_chunks log_event] in H.
+    rewrite nth_error_app_last in H.
+    destruct Hr as (_ & Hb & _ & _ & Hng & _).
+    pose proof (Hfresh (prev_size s) n addr g En (Hng n En) Hb) as Hfit.
+    destruct (f (make_chunk c n addr g)) as [[res1 ch1]|]; [discriminate|]. apply Hfit. reflexivity.
+  - injection H as <- _. split; [exact Ec|reflexivity].
+Qed.
+
+Theorem failed_alloc_keeps_current c s size align r s1 e :
+  cfg_ok c -> ginv c s -> valid_layout size align -> resp_ok c s size align r ->
+  raw_alloc c s size align r = (s1, inr e) ->
+  cur s1 = cur s /\
+  match cur s with
+  | Cur i => forall k, (k <= i)%nat -> nth_error (chunks s1) k = nth_error (chunks s) k
+  | _ => chunks s1 = chunks s
+  end.
+Proof.
+  intros Hc Hg Hl Hr H. pose proof Hg as (Hok & Hd & Hm & Hcur).
+  assert (HfA : forall ch p ch1, chunk_ok c ch -> (malign s | cpos ch) ->
+            chunk_alloc c (malign s) ch size align = Some (p, ch1) ->
+            chunk_ok c ch1 /\ same_geom ch ch1 /\ (malign s | cpos ch1) /\ True).
+  { intros ch p ch1 Hcok Hcm Hca.
+    destruct (chunk_alloc_geom c _ ch size align p ch1 Hc Hcok Hm Hcm Hl Hca) as (G1 & G2 & G3 & _).
+    split; [exact G1|]. split; [exact G2|]. split; [exact G3|exact I]. }
+  assert (Hfresh : forall prev n addr g, new_chunk_size c prev size align = Some n -> n <= g -> (ha c | addr) ->
+            chunk_alloc c (malign s) (make_chunk c n addr g) size align <> None).
+  { intros prev n addr g En Hng Hb. apply (make_chunk_fits c prev size align (malign s) n addr g Hc Hl Hm En Hng Hb). }
+  unfold raw_alloc in H. destruct (cur s) as [i| |] eqn:Ec.
+  - destruct (nth_error (chunks s) i) as [ch|] eqn:En.
+    + destruct (chunk_alloc c (malign s) ch size align) as [[p ch1]|]; [discriminate|].
+      rewrite <- Ec in H.
+      pose proof (in_another_chunk_failed c s _ size align r s1 e Hc Hg Hr HfA Hfresh H) as R0.
+      rewrite Ec in R0. exact R0.
+    + injection H as <- _. split; [exact Ec|reflexivity].
+  - rewrite <- Ec in H.
+    pose proof (in_another_chunk_failed c s _ size align r s1 e Hc Hg Hr HfA Hfresh H) as R0.
+    rewrite Ec in R0. exact R0.
+  - rewrite <- Ec in H.
+    pose proof (in_another_chunk_failed c s _ size align r s1 e Hc Hg Hr HfA Hfresh H) as R0.
+    rewrite Ec in R0. exact R0.
 Qed.
